@@ -29,11 +29,12 @@ QuickCfgs ==
       Cfg(<<1, 0, 2>>, TRUE, 2), Cfg(<<0, 237, 160>>, FALSE, 2),
       Cfg(<<1, 2, 0, 4>>, TRUE, 2) }
 ThoroughCfgs ==
-    { Cfg(b, e, 3) : b \in {<<>>, <<0>>, <<7>>, <<0, 7>>, <<7, 0>>, <<195, 169>>, <<1, 0, 2>>,
-                            <<0, 0, 255>>, <<65, 195, 40>>}, e \in BOOLEAN }
-    \cup { Cfg(<<1, 2, 0, 4>>, TRUE, 3), Cfg(<<237, 160, 128, 0>>, FALSE, 3),
-           Cfg(<<0, 240, 159, 0>>, TRUE, 3), Cfg(<<1, 2, 3, 4, 5, 6, 0, 8>>, TRUE, 2),
-           Cfg(<<1, 2, 3, 4, 5, 6, 0, 8>>, FALSE, 2) }
+    { Cfg(b, e, 3) : b \in {<<>>, <<0>>, <<7>>}, e \in BOOLEAN }
+    \cup { Cfg(<<0, 7>>, TRUE, 3), Cfg(<<0, 7>>, FALSE, 3), Cfg(<<7, 0>>, FALSE, 3), Cfg(<<195, 169>>, TRUE, 3) }
+    \cup { Cfg(<<1, 0, 2>>, TRUE, 2), Cfg(<<0, 0, 255>>, FALSE, 2), Cfg(<<65, 195, 40>>, TRUE, 2),
+           Cfg(<<0, 237, 160>>, FALSE, 2), Cfg(<<1, 2, 0, 4>>, TRUE, 2), Cfg(<<1, 2, 0, 4>>, FALSE, 2),
+           Cfg(<<237, 160, 128, 0>>, FALSE, 2), Cfg(<<0, 240, 159, 0>>, TRUE, 2),
+           Cfg(<<1, 2, 3, 4, 5, 6, 0, 8>>, TRUE, 2) }
 Cfgs == IF Tier = "quick" THEN QuickCfgs ELSE ThoroughCfgs
 
 Init == /\ \E c \in Cfgs : buf = c.buf /\ le = c.le /\ hs = InitHs(c.buf, c.mh)
